@@ -164,7 +164,7 @@ fn augment_shape_only(s: &Shape, counter: &mut usize, inj: &Injection) -> (Shape
 }
 
 fn is_server(path: &str) -> bool {
-    path.contains("server")
+    path.to_lowercase().contains("server")
 }
 
 struct Doc {
